@@ -142,8 +142,16 @@ func c06Check(e *entry, s string, budget *int) (checked int, key, detail string)
 				continue // C05's subject
 			}
 			checked++
-			// (a)
-			if se, unwrap := standaloneEntry(n); se != nil {
+			// (a) — not for a bare identifier used as a field name (after '.', where even digits and keywords are identifiers)
+			afterDot := false
+			if _, isIdent := n.(*ast.Ident); isIdent {
+				j := p - 1
+				for j >= 0 && (s[j] == ' ' || s[j] == '\n' || s[j] == '\t' || s[j] == '\r') {
+					j--
+				}
+				afterDot = j >= 0 && s[j] == '.'
+			}
+			if se, unwrap := standaloneEntry(n); se != nil && !afterDot {
 				sub := s[p:en]
 				r2 := safeParse(se, sub)
 				if r2.hung || r2.panicked != nil || r2.err != nil || len(r2.nodes) != 1 {
